@@ -22,14 +22,43 @@ pub fn end() {
     }
 }
 
+static DUMPS: Mutex<Option<HashMap<ThreadId, (Instant, Value)>>> = Mutex::new(None);
+static CROSS_MODE: std::sync::atomic::AtomicBool = std::sync::atomic::AtomicBool::new(false);
+
+/// One dump request starts on this thread (watched separately from the enclosing case).
+pub fn dump_begin(what: Value) {
+    let mut g = DUMPS.lock().unwrap_or_else(|e| e.into_inner());
+    g.get_or_insert_with(HashMap::new).insert(std::thread::current().id(), (Instant::now(), what));
+}
+
+pub fn dump_end() {
+    let mut g = DUMPS.lock().unwrap_or_else(|e| e.into_inner());
+    if let Some(m) = g.as_mut() {
+        m.remove(&std::thread::current().id());
+    }
+}
+
+/// While other checks' explorers run on behalf of this check their (longer) cases get a generous
+/// limit; single dump requests stay under a tight one.
+pub fn cross_mode(on: bool) {
+    CROSS_MODE.store(on, std::sync::atomic::Ordering::SeqCst);
+}
+
 pub fn start(prop: &str, limit: Duration, hang_is_violation: bool) {
     let prop = prop.to_string();
     std::thread::spawn(move || loop {
         std::thread::sleep(Duration::from_millis(500));
-        let stuck: Option<(Duration, Value)> = {
+        let cross = CROSS_MODE.load(std::sync::atomic::Ordering::SeqCst);
+        let case_limit = if cross { limit.max(Duration::from_secs(300)) } else { limit };
+        let dump_limit = if cross { limit.max(Duration::from_secs(60)) } else { limit };
+        let mut stuck: Option<(Duration, Value)> = {
             let g = SLOTS.lock().unwrap_or_else(|e| e.into_inner());
-            g.as_ref().and_then(|m| m.values().filter(|(t, _)| t.elapsed() > limit).map(|(t, v)| (t.elapsed(), v.clone())).next())
+            g.as_ref().and_then(|m| m.values().filter(|(t, _)| t.elapsed() > case_limit).map(|(t, v)| (t.elapsed(), v.clone())).next())
         };
+        if stuck.is_none() {
+            let g = DUMPS.lock().unwrap_or_else(|e| e.into_inner());
+            stuck = g.as_ref().and_then(|m| m.values().filter(|(t, _)| t.elapsed() > dump_limit).map(|(t, v)| (t.elapsed(), json!({"dump_request": v}))).next());
+        }
         if let Some((age, case)) = stuck {
             if hang_is_violation {
                 let dir = format!("/verif/replays/{prop}");
